@@ -197,6 +197,7 @@ def precedence_pass(ck):
     quick = ck.tier == "quick"
     rng = ck.rng
     progs = [GP.program(rng, rng.choice([2, 3, 3, 4])) for _ in range(160 if quick else 4000)]
+    progs += [GP.program_stmts(rng) for _ in range(120 if quick else 3000)]
     nin = 8 if quick else 16
     jobs, envs = [], []
     for i, (e, t, src) in enumerate(progs):
@@ -226,8 +227,8 @@ def precedence_pass(ck):
             if k >= len(got):
                 break
             try:
-                v = GP.ev(e, env)
-                want = None if v is None else '(ok "%s")' % GP.bits_of(v, t)
+                v = GP.result_bits(e, t, env)
+                want = None if v is None else '(ok "%s")' % v
             except GP.Panic as ex:
                 want = "(panic " + str(ex)
                 panics += 1
@@ -246,7 +247,8 @@ def precedence_pass(ck):
                 break
     ck.obligation("parser oracle: generated expression trees printed with minimal parentheses compile to circuits that "
                   "return the trees' values (Rust precedence, associativity, `as`, unary operators, if / else-if chains "
-                  "and match as operands)", bad == 0 and compared > 0, f"{bad} programs differ; {compared} evaluations")
+                  "and match as operands; statement programs: assignments and the ten compound assignments through index / "
+                  "tuple accessor chains, if-statements and blocks as statements)", bad == 0 and compared > 0, f"{bad} programs differ; {compared} evaluations")
     ck.obligation("parser oracle: at least 90% of the generated texts are accepted", rejected <= 0.1 * len(progs),
                   f"{rejected} of {len(progs)} rejected")
     ck.coverage["parser_precedence_oracle"] = {"programs": len(progs), "rejected": rejected, "evaluations": compared,
